@@ -884,7 +884,7 @@ class ppc_addi(ppc_mn):
     namestr = ['ADDI', 'LI']
 
     def name2str(self):
-        if self.ra == 0:
+        if self.ra == 0 and len(self.namestr) > 1:
             return self.namestr[1]
         return self.namestr[0]
 
